@@ -296,6 +296,9 @@ class ApiMergeStoreHandler(NbdimeHandler, APIHandler):
         # does not truncate an existing output file
         try:
             content = nbformat.writes(merged_nb)
+            # Text that cannot be stored as UTF-8 (unpaired surrogates) would
+            # otherwise fail in the write below, after the truncation
+            content.encode('utf8')
         except Exception:
             raise web.HTTPError(422, 'Invalid merged notebook submitted.')
         if not content.endswith('\n'):
